@@ -229,6 +229,19 @@ def install():
         return guarded(lambda res: _record("move", self, tgt, None, {}, self._root, res[0], res[1]),
                        lambda: o_move(self, target))
 
+    o_nreplace = ic.Node._replace
+
+    def nreplace(self, ast):
+        # a single statement replaced by a single node (not through Block._replace): recorded as the replacement of
+        # the one-statement block, so that what the returned forwarding function does to the siblings is judged
+        attr, idx = self._path[-1] if self._path else (None, None)
+        if isinstance(ast, list) or idx is None or attr not in ("body", "orelse") or not _stmt_path(self._path):
+            return o_nreplace(self, ast)
+        blk = self.as_block()
+        return guarded(lambda res: _record("replace", blk, None, [ast], {"single": True}, self._root, res[0], res[1]),
+                       lambda: o_nreplace(self, ast))
+
+    ic.Node._replace = nreplace
     ic.Block._replace = replace
     ic.Gap._insert = insert
     ic.Block._wrap = wrap
